@@ -14,7 +14,8 @@ Definition shipped_relations (t : ty) : list (relation ty unit unit) :=
 Definition shipped_ctx : ctx ty unit unit unit unit :=
   mkCtx ty_eqb (fun _ _ => true) shipped_relations (fun _ _ st => Ok (true, st))
         (fun t => ty_eqb t tGeneric) tGeneric (fun l => l) (fun _ => tt) (fun _ => 0) (fun d _ => d)
-        (fun _ => []) (fun _ _ => Raise KeyError) (fun _ => tt) (fun l => l).
+        (fun _ => []) (fun _ _ => Raise KeyError) (fun _ => tt) (fun l => l)
+        (fun t => Z.of_nat (ty_name t)) (fun _ _ => 0).
 
 Definition exn_code (e : exn) : Z :=
   match e with
@@ -51,7 +52,7 @@ Definition build_out_bg (order : list Z) : list Z :=
   match build_graph shipped_ctx tys [] with
   | Raise e => [exn_code e]
   | Ok ((rg, bg), warns) =>
-      match g_first_source ty_eqb rg with
+      match find_root_node shipped_ctx rg with
       | Raise e => [exn_code e]
       | Ok r =>
         [0; ty_index r] ++ enc_graph rg ++ enc_graph bg
@@ -60,8 +61,97 @@ Definition build_out_bg (order : list Z) : list Z :=
       end
   end.
 
+(* ---- export: render is instantiated with an injective packing of its argument, decoded again
+   here, so the runner shows exactly what the generated code hands to pydot *)
+Definition pack (xs : list Z) : Z := fold_left (fun acc x => acc * 64 + (x + 1)) xs 1.
+Fixpoint unpack_fuel (fuel : nat) (z : Z) (acc : list Z) : list Z :=
+  match fuel with
+  | O => acc
+  | S f => if Z.leb z 1 then acc else unpack_fuel f (z / 64) ((z mod 64 - 1) :: acc)
+  end.
+Definition unpack (z : Z) : list Z := unpack_fuel 4000 z [].
+
+Definition enc_render (nodes : list ty) (edges : list (ty * ty * option style)) : Z :=
+  pack ([Z.of_nat (length nodes)] ++ map ty_index nodes ++ [Z.of_nat (length edges)] ++
+        flat_map (fun '(u, v, s) => [ty_index u; ty_index v; match s with Some st => style_code st | None => 2 end]) edges).
+
+Definition export_ctx : ctx ty unit unit unit unit :=
+  mkCtx ty_eqb (fun _ _ => true) shipped_relations (fun _ _ st => Ok (true, st))
+        (fun t => ty_eqb t tGeneric) tGeneric (fun l => l) (fun _ => tt) (fun _ => 0) (fun d _ => d)
+        (fun _ => []) (fun _ _ => Raise KeyError) (fun _ => tt) (fun l => l)
+        (fun t => Z.of_nat (ty_name t)) enc_render.
+
+Definition tys_of (order : list Z) : list ty :=
+  flat_map (fun i => match ty_of_index i with Some t => [t] | None => [] end) order.
+
+(* [base_only; order...] -> status; n; nodes; m; (u v style)* as handed to pydot *)
+Definition export_out (args : list Z) : list Z :=
+  match args with
+  | b :: order =>
+      match VT_init export_ctx (VT_blank export_ctx) (tys_of order) [] with
+      | Raise e => [exn_code e]
+      | Ok (_, ts, _) =>
+          match VT_output_graph export_ctx ts (Z.eqb b 1) with
+          | Raise e => [exn_code e]
+          | Ok z => 0 :: unpack z
+          end
+      end
+  | [] => [9]
+  end.
+
+(* ---- algebra: [op; is_type; n_a; a...; b...]  op 0 add, 1 sub, 2 iadd, 3 isub, 4 replace(b = old new),
+   5 Type + Type (a = [t], b = [u]).  Result: status; sorted? no: types in node order; edges; warnings of
+   the operation only *)
+Definition enc_ts (r : res (VisionsTypeset ty unit unit * list (warning ty))) : list Z :=
+  match r with
+  | Raise e => [exn_code e]
+  | Ok (ts, warns) =>
+      [0] ++ [Z.of_nat (length (types ts))] ++ map ty_index (types ts) ++ enc_graph (relation_graph ts)
+          ++ [Z.of_nat (length warns)] ++ flat_map warn_enc warns
+  end.
+
+Definition algebra_out (args : list Z) : list Z :=
+  match args with
+  | op :: is_type :: n :: rest =>
+      let a := tys_of (firstn (Z.to_nat n) rest) in
+      let b := tys_of (skipn (Z.to_nat n) rest) in
+      let X := shipped_ctx in
+      if Z.eqb op 5 then
+        match a, b with
+        | [t], [u] => enc_ts (Type_add X t u [])
+        | _, _ => [9]
+        end
+      else
+      match VT_init X (VT_blank X) a [] with
+      | Raise e => [100 + exn_code e]
+      | Ok (_, tsa, _) =>
+          if Z.eqb op 4 then
+            match b with
+            | [old; new] => enc_ts (VT_replace X tsa old new [])
+            | _ => [9]
+            end
+          else
+          let other : res (ty + VisionsTypeset ty unit unit) :=
+            if Z.eqb is_type 1 then match b with [t] => Ok (inl t) | _ => Raise OtherExn end
+            else match VT_init X (VT_blank X) b [] with Ok (_, tsb, _) => Ok (inr tsb) | Raise e => Raise e end in
+          match other with
+          | Raise e => [200 + exn_code e]
+          | Ok o =>
+              if Z.eqb op 0 then enc_ts (VT_add X tsa o [])
+              else if Z.eqb op 1 then enc_ts (VT_sub X tsa o [])
+              else if Z.eqb op 2 then enc_ts (VT_iadd X tsa o [])
+              else enc_ts (VT_isub X tsa o [])
+          end
+      end
+  | _ => [9]
+  end.
+
 Definition build_any (mode_order : list Z) : list Z :=
   match mode_order with
-  | m :: order => if Z.eqb m 0 then build_out order else build_out_bg order
+  | m :: order =>
+      if Z.eqb m 0 then build_out order
+      else if Z.eqb m 1 then build_out_bg order
+      else if Z.eqb m 2 then algebra_out order
+      else export_out order
   | [] => [9]
   end.
